@@ -161,13 +161,7 @@ Definition spec (i : input) (o : observed) : bool :=
   end.
 
 (* ---- input guard -------------------------------------------------------- *)
-Definition client_ok (c : client) : bool :=
-  negb (String.eqb (c_id c) "") &&
-  match c_auth c with
-  | ANone => negb (c_web c)
-  | ABasic | APost => c_web c
-  | APkjwt => false
-  end.
+Definition client_ok (c : client) : bool := negb (String.eqb (c_id c) "").
 
 Definition op_ok (o : op) : bool :=
   match o with
